@@ -816,4 +816,83 @@ theorem foldl_accepted_mono (b : List Op) : ∀ s : St, ∃ t, (b.foldl step s).
     obtain ⟨t2, h2⟩ := ih (step s op)
     exact ⟨t1 ++ t2, by simp only [List.foldl_cons, h2, h1, List.append_assoc]⟩
 
+/-! ## Part B over time: in every interleaving the accepted stream and the queued stream only ever grow at the end -/
+
+/-- extends: `y = x ++ t` for some `t` -/
+def Ext (x y : Bytes) : Prop := ∃ t, y = x ++ t
+theorem Ext.refl (x : Bytes) : Ext x x := ⟨[], by simp⟩
+theorem Ext.app (x t : Bytes) : Ext x (x ++ t) := ⟨t, rfl⟩
+theorem Ext.trans {x y z : Bytes} (h1 : Ext x y) (h2 : Ext y z) : Ext x z := by
+  obtain ⟨a, rfl⟩ := h1; obtain ⟨b, rfl⟩ := h2; exact ⟨a ++ b, by simp⟩
+
+theorem cstep_hist (s s' : Ctl) (a : Act) (hs : cstep s a = some s') :
+    Ext s.accepted s'.accepted ∧ Ext s.queued s'.queued := by
+  cases a with
+  | coopCheck d =>
+    simp only [cstep] at hs
+    split at hs
+    · cases hs
+    · split at hs <;> (cases hs; first | exact ⟨Ext.refl _, Ext.refl _⟩ | exact ⟨Ext.refl _, Ext.app _ _⟩)
+  | coopGo o =>
+    simp only [cstep] at hs
+    split at hs
+    · cases hs; exact ⟨Ext.refl _, Ext.refl _⟩
+    · split at hs
+      · split at hs <;> (cases hs; split <;> first | exact ⟨Ext.app _ _, Ext.refl _⟩ | exact ⟨Ext.refl _, Ext.refl _⟩)
+      · cases hs; split <;> exact ⟨Ext.refl _, Ext.refl _⟩
+      · cases hs; split <;> exact ⟨Ext.refl _, Ext.refl _⟩
+    · cases hs
+  | coopEnq =>
+    simp only [cstep] at hs
+    split at hs
+    · split at hs
+      · cases hs
+      · split at hs <;> (cases hs; exact ⟨Ext.refl _, Ext.refl _⟩)
+    · cases hs
+  | senderBegin =>
+    simp only [cstep] at hs
+    split at hs <;> (cases hs; try exact ⟨Ext.refl _, Ext.refl _⟩)
+  | senderSend o =>
+    simp only [cstep] at hs
+    split at hs
+    · cases hs
+    · split at hs
+      · cases hs; exact ⟨Ext.refl _, Ext.refl _⟩
+      · split at hs
+        · split at hs <;> (cases hs; split <;> first | exact ⟨Ext.app _ _, Ext.refl _⟩ | exact ⟨Ext.refl _, Ext.refl _⟩)
+        · cases hs; split <;> exact ⟨Ext.refl _, Ext.refl _⟩
+        · cases hs; split <;> exact ⟨Ext.refl _, Ext.refl _⟩
+  | senderFinish =>
+    simp only [cstep] at hs
+    split at hs
+    · cases hs
+    · split at hs <;> (cases hs; exact ⟨Ext.refl _, Ext.refl _⟩)
+  | envEnq =>
+    simp only [cstep] at hs
+    split at hs <;> (cases hs; try exact ⟨Ext.refl _, Ext.refl _⟩)
+  | envDone r =>
+    simp only [cstep] at hs
+    split at hs
+    · cases hs
+    · split at hs <;> (cases hs; exact ⟨Ext.refl _, Ext.refl _⟩)
+  | envDisc => cases hs; exact ⟨Ext.refl _, Ext.refl _⟩
+  | coopDisc =>
+    simp only [cstep] at hs
+    split at hs <;> (cases hs; try exact ⟨Ext.refl _, Ext.refl _⟩)
+  | senderPurge =>
+    simp only [cstep] at hs
+    split at hs <;> (cases hs; try exact ⟨Ext.refl _, Ext.refl _⟩)
+
+theorem crun_hist (acts : List Act) : ∀ s : Ctl, Ext s.accepted (crun s acts).accepted ∧ Ext s.queued (crun s acts).queued := by
+  induction acts with
+  | nil => intro s; exact ⟨Ext.refl _, Ext.refl _⟩
+  | cons a as ih =>
+    intro s
+    show Ext s.accepted (crun ((cstep s a).getD s) as).accepted ∧ Ext s.queued (crun ((cstep s a).getD s) as).queued
+    cases h : cstep s a with
+    | none => exact ih s
+    | some s' =>
+      have h1 := cstep_hist s s' a h
+      have h2 := ih s'
+      exact ⟨h1.1.trans h2.1, h1.2.trans h2.2⟩
 end Pox.SendPath
